@@ -1,6 +1,1128 @@
 import SradModel.Model.HostSpec
 import SradModel.Proofs.Reseq
 
+set_option linter.unusedSimpArgs false
+
 namespace Srad.Host
+
+/-! ### trace lifecycles -/
+
+theorem nodeLife_cons (l : Life) (e : Eff) (t : List Eff) :
+    nodeLife l (e :: t) = nodeLife (nodeLife l [e]) t := by
+  cases e <;> try simp [nodeLife]
+  case nodeBirth id ok => cases ok <;> simp [nodeLife]
+
+theorem devLife_cons (d : Nat) (l : Life) (e : Eff) (t : List Eff) :
+    devLife d l (e :: t) = devLife d (devLife d l [e]) t := by
+  cases e <;> try simp [devLife]
+  case devBirth d' id ok => cases ok <;> simp [devLife] <;> split <;> rfl
+  case devStale d' => split <;> rfl
+
+theorem nodeLife_append (l : Life) (a b : List Eff) :
+    nodeLife l (a ++ b) = nodeLife (nodeLife l a) b := by
+  induction a generalizing l with
+  | nil => rfl
+  | cons e t ih => rw [List.cons_append, nodeLife_cons, ih, ← nodeLife_cons]
+
+theorem devLife_append (d : Nat) (l : Life) (a b : List Eff) :
+    devLife d l (a ++ b) = devLife d (devLife d l a) b := by
+  induction a generalizing l with
+  | nil => rfl
+  | cons e t ih => rw [List.cons_append, devLife_cons, ih, ← devLife_cons]
+
+/-- effects that do not change the node store's lifecycle -/
+def Eff.nodeNeutral : Eff → Bool
+  | .nodeBirth _ true | .nodeStale => false
+  | _ => true
+
+/-- effects that do not change any device store's lifecycle -/
+def Eff.devNeutral : Eff → Bool
+  | .devBirth _ _ true | .devStale _ => false
+  | _ => true
+
+def Eff.isData : Eff → Bool
+  | .nodeData _ | .devData _ _ => true
+  | _ => false
+
+theorem nodeLife_neutral (l : Life) (es : List Eff) (h : ∀ e ∈ es, e.nodeNeutral = true) :
+    nodeLife l es = l := by
+  induction es with
+  | nil => rfl
+  | cons e t ih =>
+    rw [nodeLife_cons]
+    have he := h e (List.mem_cons_self ..)
+    have : nodeLife l [e] = l := by
+      cases e <;> try simp [nodeLife]
+      case nodeBirth id ok => cases ok <;> simp_all [nodeLife, Eff.nodeNeutral]
+      case nodeStale => simp [Eff.nodeNeutral] at he
+    rw [this]
+    exact ih (fun e he => h e (List.mem_cons_of_mem _ he))
+
+theorem devLife_neutral (d : Nat) (l : Life) (es : List Eff) (h : ∀ e ∈ es, e.devNeutral = true) :
+    devLife d l es = l := by
+  induction es with
+  | nil => rfl
+  | cons e t ih =>
+    rw [devLife_cons]
+    have he := h e (List.mem_cons_self ..)
+    have : devLife d l [e] = l := by
+      cases e <;> try simp [devLife]
+      case devBirth d' id ok => cases ok <;> simp_all [devLife, Eff.devNeutral]
+      case devStale => simp [Eff.devNeutral] at he
+    rw [this]
+    exact ih (fun e he => h e (List.mem_cons_of_mem _ he))
+
+theorem devLife_map_stale (d : Nat) (l : Life) (L : List (Nat × Life)) :
+    devLife d l (L.map fun x => Eff.devStale x.1) =
+      if d ∈ L.map Prod.fst then .stale else l := by
+  induction L generalizing l with
+  | nil => rfl
+  | cons a t ih =>
+    simp only [List.map_cons, devLife, List.mem_cons]
+    by_cases h : a.1 = d
+    · simp [h, ih]
+    · have : ¬ d = a.1 := fun h' => h h'.symm
+      simp only [h, ih, this, false_or, if_false]
+
+/-! ### the guard checker -/
+
+def okData (ln : Life) (ld : Nat → Life) : Eff → Prop
+  | .nodeData _ => ln = .birthed
+  | .devData d _ => ln = .birthed ∧ ld d = .birthed
+  | _ => True
+
+def Guard : Life → (Nat → Life) → List Eff → Prop
+  | _, _, [] => True
+  | ln, ld, e :: t => okData ln ld e ∧ Guard (nodeLife ln [e]) (fun d => devLife d (ld d) [e]) t
+
+theorem Guard_append (ln : Life) (ld : Nat → Life) (a b : List Eff) :
+    Guard ln ld (a ++ b) ↔
+      Guard ln ld a ∧ Guard (nodeLife ln a) (fun d => devLife d (ld d) a) b := by
+  induction a generalizing ln ld with
+  | nil => simp [Guard, nodeLife, devLife]
+  | cons e t ih =>
+    simp only [List.cons_append, Guard, ih, ← nodeLife_cons, ← devLife_cons, and_assoc]
+
+theorem Guard_nodata (ln : Life) (ld : Nat → Life) (es : List Eff)
+    (h : ∀ e ∈ es, e.isData = false) : Guard ln ld es := by
+  induction es generalizing ln ld with
+  | nil => trivial
+  | cons e t ih =>
+    refine ⟨?_, ih _ _ (fun e he => h e (List.mem_cons_of_mem _ he))⟩
+    have he := h e (List.mem_cons_self ..)
+    cases e <;> simp_all [okData, Eff.isData]
+
+theorem Guard_dataGuarded (ln : Life) (ld : Nat → Life) (es : List Eff) (h : Guard ln ld es) :
+    DataGuarded ln ld es := by
+  constructor
+  · intro pre
+    induction pre generalizing ln ld es with
+    | nil =>
+      intro post id he; subst he
+      exact h.1
+    | cons e pre ih =>
+      intro post id he; subst he
+      rw [nodeLife_cons]
+      exact ih _ _ _ h.2 post id rfl
+  · intro pre
+    induction pre generalizing ln ld es with
+    | nil =>
+      intro post d id he; subst he
+      exact h.1
+    | cons e pre ih =>
+      intro post d id he; subst he
+      rw [nodeLife_cons, devLife_cons]
+      exact ih _ _ _ h.2 post d id rfl
+
+/-! ### device lists -/
+
+theorem findDev_eq_none (d : Nat) (L : List (Nat × Life)) :
+    findDev d L = none ↔ d ∉ L.map Prod.fst := by
+  induction L with
+  | nil => simp [findDev]
+  | cons a t ih =>
+    obtain ⟨d', l'⟩ := a
+    simp only [findDev, List.map_cons, List.mem_cons]
+    by_cases h : d' = d
+    · simp [h]
+    · have : ¬ d = d' := fun h' => h h'.symm
+      simp [h, ih, this]
+
+theorem findDev_some_mem (d : Nat) (l : Life) (L : List (Nat × Life)) (h : findDev d L = some l) :
+    (d, l) ∈ L := by
+  induction L with
+  | nil => simp [findDev] at h
+  | cons a t ih =>
+    obtain ⟨d', l'⟩ := a
+    simp only [findDev] at h
+    split at h
+    · simp_all
+    · exact List.mem_cons_of_mem _ (ih h)
+
+theorem findDev_some_mem_fst (d : Nat) (l : Life) (L : List (Nat × Life))
+    (h : findDev d L = some l) : d ∈ L.map Prod.fst :=
+  List.mem_map.mpr ⟨(d, l), findDev_some_mem d l L h, rfl⟩
+
+theorem map_fst_setDev (d : Nat) (l : Life) (L : List (Nat × Life)) :
+    (setDev d l L).map Prod.fst = L.map Prod.fst := by
+  induction L with
+  | nil => rfl
+  | cons a t ih =>
+    obtain ⟨d', l'⟩ := a
+    simp only [setDev]
+    split
+    · simp
+    · simp [ih]
+
+theorem findDev_setDev_self (d : Nat) (l : Life) (L : List (Nat × Life)) :
+    findDev d (setDev d l L) = (findDev d L).map fun _ => l := by
+  induction L with
+  | nil => rfl
+  | cons a t ih =>
+    obtain ⟨d', l'⟩ := a
+    simp only [setDev, findDev]
+    split
+    · simp_all [findDev]
+    · simp_all [findDev]
+
+theorem findDev_setDev_ne (d d' : Nat) (l : Life) (L : List (Nat × Life)) (h : d' ≠ d) :
+    findDev d' (setDev d l L) = findDev d' L := by
+  induction L with
+  | nil => rfl
+  | cons a t ih =>
+    obtain ⟨d'', l''⟩ := a
+    simp only [setDev, findDev]
+    split
+    · rename_i h2; subst h2
+      have : ¬ d'' = d' := fun h' => h h'.symm
+      simp [findDev, this]
+    · simp only [findDev, ih]
+
+theorem findDev_append_single (d d' : Nat) (l : Life) (L : List (Nat × Life)) :
+    findDev d' (L ++ [(d, l)]) =
+      match findDev d' L with
+      | some x => some x
+      | none => if d = d' then some l else none := by
+  induction L with
+  | nil => simp [findDev]
+  | cons a t ih =>
+    obtain ⟨d'', l''⟩ := a
+    simp only [List.cons_append, findDev]
+    split
+    · rfl
+    · exact ih
+
+theorem findDev_map_stale (d : Nat) (L : List (Nat × Life)) :
+    findDev d (L.map fun x => (x.1, Life.stale)) = (findDev d L).map fun _ => Life.stale := by
+  induction L with
+  | nil => rfl
+  | cons a t ih =>
+    obtain ⟨d', l'⟩ := a
+    simp only [List.map_cons, findDev]
+    split
+    · rfl
+    · exact ih
+
+theorem findDev_all_stale (d : Nat) (L : List (Nat × Life)) (h : ∀ x ∈ L, x.2 = Life.stale) :
+    (findDev d L).getD .stale = .stale := by
+  cases hf : findDev d L with
+  | none => rfl
+  | some l => exact h _ (findDev_some_mem d l L hf)
+
+/-! ### simulation of the stores' lifecycles by the recorded state -/
+
+theorem devState_all_stale (s : St) (h : ∀ x ∈ s.devices, x.2 = Life.stale) (d : Nat) :
+    devState s d = .stale := findDev_all_stale d s.devices h
+
+/-- effects that touch no store lifecycle and carry no data -/
+def Eff.inert : Eff → Bool
+  | .timerStart | .timerCancel | .ncmd | .devCreated _ | .nodeBirth _ false => true
+  | _ => false
+
+theorem Eff.inert_nodeNeutral (e : Eff) (h : e.inert = true) : e.nodeNeutral = true := by
+  cases e <;> try simp_all [Eff.inert, Eff.nodeNeutral]
+  case nodeBirth id ok => cases ok <;> simp_all [Eff.inert, Eff.nodeNeutral]
+theorem Eff.inert_devNeutral (e : Eff) (h : e.inert = true) : e.devNeutral = true := by
+  cases e <;> simp_all [Eff.inert, Eff.devNeutral]
+theorem Eff.inert_not_data (e : Eff) (h : e.inert = true) : e.isData = false := by
+  cases e <;> simp_all [Eff.inert, Eff.isData]
+
+/-- the trace `es` takes the stores from what `s` records to what `s'` records, and every data
+effect in it is guarded -/
+def Sim (s : St) (es : List Eff) (s' : St) : Prop :=
+  nodeLife s.life es = s'.life ∧ (∀ d, devLife d (devState s d) es = devState s' d) ∧
+  Guard s.life (devState s) es
+
+theorem Sim.refl (s : St) : Sim s [] s := ⟨rfl, fun _ => rfl, trivial⟩
+
+theorem Sim.trans {s s1 s2 : St} {a b : List Eff} (h1 : Sim s a s1) (h2 : Sim s1 b s2) :
+    Sim s (a ++ b) s2 := by
+  obtain ⟨hn1, hd1, hg1⟩ := h1
+  obtain ⟨hn2, hd2, hg2⟩ := h2
+  have hf : (fun d => devLife d (devState s d) a) = devState s1 := funext hd1
+  refine ⟨?_, ?_, ?_⟩
+  · rw [nodeLife_append, hn1, hn2]
+  · intro d; rw [devLife_append, hd1, hd2]
+  · rw [Guard_append, hn1, hf]; exact ⟨hg1, hg2⟩
+
+theorem Sim_inert (s s' : St) (es : List Eff) (hl : s'.life = s.life)
+    (hd : s'.devices = s.devices) (h : ∀ e ∈ es, e.inert = true) : Sim s es s' := by
+  refine ⟨?_, ?_, ?_⟩
+  · rw [nodeLife_neutral _ _ (fun e he => Eff.inert_nodeNeutral e (h e he)), hl]
+  · intro d
+    rw [devLife_neutral _ _ _ (fun e he => Eff.inert_devNeutral e (h e he))]
+    simp [devState, hd]
+  · exact Guard_nodata _ _ _ (fun e he => Eff.inert_not_data e (h e he))
+
+/-! ### cancelTimer, startTimer -/
+
+theorem cancelTimer_fst (s : St) : (cancelTimer s).1 = { s with timer := .none } := by
+  unfold cancelTimer
+  split
+  · rename_i h; cases s; simp_all
+  · rfl
+
+theorem cancelTimer_snd (s : St) : ∀ e ∈ (cancelTimer s).2, e = Eff.timerCancel := by
+  unfold cancelTimer
+  split <;> simp
+
+theorem startTimer_fst (c : Cfg) (s : St) (now : Nat) :
+    ∃ t, (startTimer c s now).1 = { s with timer := t } := by
+  unfold startTimer
+  split
+  · exact ⟨_, rfl⟩
+  · exact ⟨s.timer, by cases s; rfl⟩
+
+theorem startTimer_snd (c : Cfg) (s : St) (now : Nat) :
+    ∀ e ∈ (startTimer c s now).2, e = Eff.timerStart := by
+  unfold startTimer
+  split <;> simp
+
+/-! ### setStale -/
+
+theorem setStale_noop (s : St) (t : Nat) (h : s.life = .stale ∨ t < s.birthTs) :
+    setStale s t = (s, []) := by
+  unfold setStale
+  rcases h with h | h
+  · simp [h]
+  · simp [h]
+
+theorem setStale_go (s : St) (t : Nat) (h1 : s.life = .birthed) (h2 : s.birthTs ≤ t) :
+    setStale s t =
+      ({ s with reseq := Reseq.init, timer := .none, life := .stale, staleTs := t,
+                devices := s.devices.map fun d => (d.1, .stale) },
+       (cancelTimer { s with reseq := Reseq.init }).2 ++ [.nodeStale] ++
+         s.devices.map fun d => .devStale d.1) := by
+  unfold setStale
+  have h3 : ¬ t < s.birthTs := by omega
+  have h4 : ¬ s.life = .stale := by simp [h1]
+  simp only [h4, h3, if_false, cancelTimer_fst]
+
+theorem setStale_cases (s : St) (t : Nat) :
+    setStale s t = (s, []) ∨
+    (s.life = .birthed ∧ s.birthTs ≤ t ∧ setStale s t =
+      ({ s with reseq := Reseq.init, timer := .none, life := .stale, staleTs := t,
+                devices := s.devices.map fun d => (d.1, .stale) },
+       (cancelTimer { s with reseq := Reseq.init }).2 ++ [.nodeStale] ++
+         s.devices.map fun d => .devStale d.1)) := by
+  by_cases h1 : s.life = .stale
+  · exact Or.inl (setStale_noop s t (Or.inl h1))
+  · by_cases h2 : t < s.birthTs
+    · exact Or.inl (setStale_noop s t (Or.inr h2))
+    · have h1' : s.life = .birthed := by cases h : s.life <;> simp_all
+      exact Or.inr ⟨h1', by omega, setStale_go s t h1' (by omega)⟩
+
+/-- effects a rebirth / staleness handler may emit -/
+def Eff.staleish : Eff → Bool
+  | .ncmd | .nodeStale | .timerCancel | .devStale _ => true
+  | _ => false
+
+theorem setStale_sim (s : St) (t : Nat) : Sim s (setStale s t).2 (setStale s t).1 := by
+  rcases setStale_cases s t with h | ⟨h1, _, h⟩
+  · rw [h]; exact Sim.refl s
+  · rw [h]
+    have hc := cancelTimer_snd { s with reseq := Reseq.init }
+    refine ⟨?_, ?_, ?_⟩
+    · simp only [nodeLife_append]
+      rw [nodeLife_neutral (es := List.map _ _)]
+      · rfl
+      · intro e he; simp only [List.mem_map] at he; obtain ⟨x, _, rfl⟩ := he; rfl
+    · intro d
+      simp only [devLife_append, devLife_map_stale]
+      rw [devLife_neutral (es := (cancelTimer _).2)]
+      · simp only [devLife, devState, findDev_map_stale]
+        cases hf : findDev d s.devices with
+        | none => simp [(findDev_eq_none d s.devices).mp hf]
+        | some l => simp [findDev_some_mem_fst d l s.devices hf]
+      · intro e he; rw [hc e he]; rfl
+    · apply Guard_nodata
+      intro e he
+      simp only [List.mem_append, List.mem_map, List.mem_singleton] at he
+      rcases he with (he | rfl) | ⟨x, _, rfl⟩
+      · rw [hc e he]; rfl
+      · rfl
+      · rfl
+
+theorem setStale_staleish (s : St) (t : Nat) : ∀ e ∈ (setStale s t).2, e.staleish = true := by
+  rcases setStale_cases s t with h | ⟨h1, _, h⟩
+  · rw [h]; simp
+  · rw [h]
+    have hc := cancelTimer_snd { s with reseq := Reseq.init }
+    intro e he
+    simp only [List.mem_append, List.mem_map, List.mem_singleton] at he
+    rcases he with (he | rfl) | ⟨x, _, rfl⟩
+    · rw [hc e he]; rfl
+    · rfl
+    · rfl
+
+theorem setStale_inv (s : St) (t : Nat) (h : HostInv s) : HostInv (setStale s t).1 := by
+  rcases setStale_cases s t with h' | ⟨h1, _, h'⟩
+  · rw [h']; exact h
+  · rw [h']
+    refine ⟨Reseq.init_inv, fun _ => ⟨rfl, rfl, ?_⟩, ?_⟩
+    · intro d hd; simp only [List.mem_map] at hd; obtain ⟨x, _, rfl⟩ := hd; rfl
+    · have : (List.map Prod.fst (List.map (fun d : Nat × Life => (d.1, Life.stale)) s.devices))
+          = s.devices.map Prod.fst := by simp [List.map_map, Function.comp_def]
+      simp only [this]; exact h.2.2
+
+/-- what `setStale` achieves when the clock is coherent -/
+theorem setStale_marks (s : St) (t : Nat) (hclock : s.birthTs ≤ t)
+    (hst : s.life = .stale → ∀ d ∈ s.devices, d.2 = .stale) :
+    (setStale s t).1.life = .stale ∧ (∀ d ∈ (setStale s t).1.devices, d.2 = .stale) ∧
+    (s.life = .birthed → Eff.nodeStale ∈ (setStale s t).2 ∧
+      ∀ d ∈ s.devices, Eff.devStale d.1 ∈ (setStale s t).2) := by
+  cases hl : s.life with
+  | stale =>
+    rw [setStale_noop s t (Or.inl hl)]
+    exact ⟨hl, hst hl, fun h => by simp at h⟩
+  | birthed =>
+    rw [setStale_go s t hl hclock]
+    refine ⟨rfl, ?_, fun _ => ⟨by simp, ?_⟩⟩
+    · intro d hd; simp only [List.mem_map] at hd; obtain ⟨x, _, rfl⟩ := hd; rfl
+    · intro d hd
+      simp only [List.mem_append, List.mem_map]
+      exact Or.inr ⟨d, hd, rfl⟩
+
+theorem setStale_fields (s : St) (t : Nat) :
+    (setStale s t).1.birthTs = s.birthTs ∧ (setStale s t).1.bdseq = s.bdseq ∧
+    (setStale s t).1.lastRebirth = s.lastRebirth := by
+  rcases setStale_cases s t with h | ⟨_, _, h⟩ <;> rw [h] <;> simp
+
+/-! ### issueRebirth -/
+
+theorem issueRebirth_cases (c : Cfg) (s : St) (r : Reason) (now wall : Nat) :
+    issueRebirth c s r now wall = (s, []) ∨
+    (c.enabled r = true ∧ c.cooldown ≤ wall - s.lastRebirth ∧
+     issueRebirth c s r now wall =
+      ((setStale { s with lastRebirth := wall } now).1,
+       (setStale { s with lastRebirth := wall } now).2 ++ [.ncmd])) := by
+  unfold issueRebirth
+  by_cases h1 : c.enabled r = true
+  · by_cases h2 : wall - s.lastRebirth < c.cooldown
+    · simp [h1, h2]
+    · exact Or.inr ⟨h1, by omega, by simp [h1, h2]⟩
+  · simp [h1]
+
+theorem issueRebirth_sim (c : Cfg) (s : St) (r : Reason) (now wall : Nat) :
+    Sim s (issueRebirth c s r now wall).2 (issueRebirth c s r now wall).1 := by
+  rcases issueRebirth_cases c s r now wall with h | ⟨_, _, h⟩
+  · rw [h]; exact Sim.refl s
+  · rw [h]
+    have h1 : Sim s [] { s with lastRebirth := wall } := Sim_inert _ _ _ rfl rfl (by simp)
+    have h2 := setStale_sim { s with lastRebirth := wall } now
+    have h3 : Sim (setStale { s with lastRebirth := wall } now).1 [Eff.ncmd]
+        (setStale { s with lastRebirth := wall } now).1 :=
+      Sim_inert _ _ _ rfl rfl (by simp [Eff.inert])
+    exact (h1.trans h2).trans h3
+
+theorem issueRebirth_staleish (c : Cfg) (s : St) (r : Reason) (now wall : Nat) :
+    ∀ e ∈ (issueRebirth c s r now wall).2, e.staleish = true := by
+  rcases issueRebirth_cases c s r now wall with h | ⟨_, _, h⟩
+  · rw [h]; simp
+  · rw [h]
+    intro e he
+    simp only [List.mem_append, List.mem_singleton] at he
+    rcases he with he | rfl
+    · exact setStale_staleish _ _ e he
+    · rfl
+
+theorem issueRebirth_inv (c : Cfg) (s : St) (r : Reason) (now wall : Nat) (h : HostInv s) :
+    HostInv (issueRebirth c s r now wall).1 := by
+  rcases issueRebirth_cases c s r now wall with h' | ⟨_, _, h'⟩
+  · rw [h']; exact h
+  · rw [h']; exact setStale_inv _ _ h
+
+theorem issueRebirth_fields (c : Cfg) (s : St) (r : Reason) (now wall : Nat) :
+    (issueRebirth c s r now wall).1.birthTs = s.birthTs ∧
+    (issueRebirth c s r now wall).1.bdseq = s.bdseq := by
+  rcases issueRebirth_cases c s r now wall with h | ⟨_, _, h⟩
+  · rw [h]; simp
+  · rw [h]; have := setStale_fields { s with lastRebirth := wall } now; simp_all
+
+/-- an issued rebirth (NCMD in the effects) marks everything stale -/
+theorem issueRebirth_marks (c : Cfg) (s : St) (r : Reason) (now wall : Nat)
+    (hclock : s.birthTs ≤ now) (hst : s.life = .stale → ∀ d ∈ s.devices, d.2 = .stale)
+    (h : Eff.ncmd ∈ (issueRebirth c s r now wall).2) :
+    (issueRebirth c s r now wall).1.life = .stale ∧
+    (∀ d ∈ (issueRebirth c s r now wall).1.devices, d.2 = .stale) ∧
+    (s.life = .birthed → Eff.nodeStale ∈ (issueRebirth c s r now wall).2 ∧
+      ∀ d ∈ s.devices, Eff.devStale d.1 ∈ (issueRebirth c s r now wall).2) := by
+  rcases issueRebirth_cases c s r now wall with h' | ⟨_, _, h'⟩
+  · rw [h'] at h; simp at h
+  · rw [h']
+    obtain ⟨m1, m2, m3⟩ := setStale_marks { s with lastRebirth := wall } now hclock hst
+    refine ⟨m1, m2, fun hb => ?_⟩
+    obtain ⟨m4, m5⟩ := m3 hb
+    exact ⟨List.mem_append_left _ m4, fun d hd => List.mem_append_left _ (m5 d hd)⟩
+
+/-- effects the resequenceable-message handler itself may emit -/
+def Eff.plain : Eff → Bool
+  | .nodeData _ | .devCreated _ | .devBirth _ _ _ | .devData _ _ | .devStale _
+  | .timerStart | .timerCancel => true
+  | _ => false
+
+/-- what handling a resequenceable message (before any rebirth) does to the state -/
+def Rel (s : St) (es : List Eff) (s' : St) : Prop :=
+  s'.life = s.life ∧ s'.birthTs = s.birthTs ∧
+  (∀ d ∈ s.devices.map Prod.fst, d ∈ s'.devices.map Prod.fst) ∧
+  (∀ e ∈ es, e.plain = true) ∧ Sim s es s'
+
+theorem Rel.refl (s : St) : Rel s [] s := ⟨rfl, rfl, fun _ h => h, by simp, Sim.refl s⟩
+
+theorem Rel.trans {s s1 s2 : St} {a b : List Eff} (h1 : Rel s a s1) (h2 : Rel s1 b s2) :
+    Rel s (a ++ b) s2 := by
+  obtain ⟨a1, a2, a3, a4, a5⟩ := h1
+  obtain ⟨b1, b2, b3, b4, b5⟩ := h2
+  refine ⟨b1.trans a1, b2.trans a2, fun d hd => b3 d (a3 d hd), ?_, a5.trans b5⟩
+  intro e he
+  rcases List.mem_append.mp he with he | he
+  · exact a4 e he
+  · exact b4 e he
+
+theorem Rel_timer (s s' : St) (es : List Eff) (hl : s'.life = s.life) (hb : s'.birthTs = s.birthTs)
+    (hd : s'.devices = s.devices) (h : ∀ e ∈ es, e = Eff.timerStart ∨ e = Eff.timerCancel) :
+    Rel s es s' := by
+  refine ⟨hl, hb, by simp [hd], ?_, Sim_inert s s' es hl hd ?_⟩
+  · intro e he; rcases h e he with rfl | rfl <;> rfl
+  · intro e he; rcases h e he with rfl | rfl <;> rfl
+
+theorem apply_fst_eq (s : St) (m : RMsg) :
+    (apply s m).1 = { s with devices := (apply s m).1.devices } := by
+  cases m <;> simp only [apply] <;> (repeat' split) <;> rfl
+
+theorem apply_rel (s : St) (m : RMsg) (hb : s.life = .birthed) :
+    Rel s (apply s m).2.1 (apply s m).1 := by
+  cases m with
+  | ndata id ans =>
+    simp only [apply]
+    refine ⟨rfl, rfl, fun _ h => h, by simp [Eff.plain], ?_, ?_, ?_⟩
+    · simp [nodeLife]
+    · simp [devLife]
+    · simp [Guard, okData, hb]
+  | dbirth d id ans =>
+    simp only [apply]
+    cases hf : findDev d s.devices with
+    | some l =>
+      by_cases ha : ans = .ok
+      · simp only [ha, if_true, List.nil_append]
+        refine ⟨rfl, rfl, by simp [map_fst_setDev], by simp [Eff.plain], ?_, ?_, ?_⟩
+        · simp [nodeLife]
+        · intro d'
+          by_cases hd : d' = d
+          · subst hd; simp [devLife, devState, findDev_setDev_self, hf]
+          · have : ¬ d = d' := fun h => hd h.symm
+            simp [devLife, devState, findDev_setDev_ne _ _ _ _ hd, this]
+        · simp [Guard, okData]
+      · simp only [ha, if_false, List.nil_append]
+        refine ⟨rfl, rfl, fun _ h => h, by simp [Eff.plain], ?_, ?_, ?_⟩
+        · simp [nodeLife]
+        · simp [devLife, devState]
+        · simp [Guard, okData]
+    | none =>
+      by_cases ha : ans = .ok
+      · simp only [ha, if_true]
+        refine ⟨rfl, rfl, by simp [map_fst_setDev]; grind, by simp [Eff.plain], ?_, ?_, ?_⟩
+        · simp [nodeLife]
+        · intro d'
+          by_cases hd : d' = d
+          · subst hd; simp [devLife, devState, findDev_setDev_self, findDev_append_single, hf]
+          · have : ¬ d = d' := fun h => hd h.symm
+            simp only [devLife, devState, findDev_setDev_ne _ _ _ _ hd, findDev_append_single]
+            cases findDev d' s.devices <;> simp [this, devLife]
+        · simp [Guard, okData]
+      · simp only [ha, if_false]
+        refine ⟨rfl, rfl, by simp; grind, by simp [Eff.plain], ?_, ?_, ?_⟩
+        · simp [nodeLife]
+        · intro d'
+          simp only [devLife, devState, findDev_append_single]
+          cases findDev d' s.devices <;> simp [devLife] <;> split <;> rfl
+        · simp [Guard, okData]
+  | ddeath d id =>
+    simp only [apply]
+    cases hf : findDev d s.devices with
+    | none => exact Rel.refl s
+    | some l =>
+      refine ⟨rfl, rfl, by simp [map_fst_setDev], by simp [Eff.plain], ?_, ?_, ?_⟩
+      · simp [nodeLife]
+      · intro d'
+        by_cases hd : d' = d
+        · subst hd; simp [devLife, devState, findDev_setDev_self, hf]
+        · have : ¬ d = d' := fun h => hd h.symm
+          simp [devLife, devState, findDev_setDev_ne _ _ _ _ hd, this]
+      · simp [Guard, okData]
+  | ddata d id ans =>
+    simp only [apply]
+    cases hf : findDev d s.devices with
+    | none => exact Rel.refl s
+    | some l =>
+      cases l with
+      | stale => exact Rel.refl s
+      | birthed =>
+        refine ⟨rfl, rfl, fun _ h => h, by simp [Eff.plain], ?_, ?_, ?_⟩
+        · simp [nodeLife]
+        · simp [devLife]
+        · simp [Guard, okData, hb, devState, hf]
+
+/-- the invariant in a birthed state -/
+def BInv (s : St) : Prop :=
+  s.life = .birthed ∧ Reseq.Inv s.reseq ∧ (s.devices.map Prod.fst).Nodup
+
+theorem BInv.hostInv {s : St} (h : BInv s) : HostInv s :=
+  ⟨h.2.1, fun hs => by simp [h.1] at hs, h.2.2⟩
+
+theorem HostInv.binv {s : St} (h : HostInv s) (hb : s.life = .birthed) : BInv s :=
+  ⟨hb, h.1, h.2.2⟩
+
+theorem apply_nodup (s : St) (m : RMsg) (h : (s.devices.map Prod.fst).Nodup) :
+    ((apply s m).1.devices.map Prod.fst).Nodup := by
+  cases m with
+  | ndata id ans => exact h
+  | dbirth d id ans =>
+    simp only [apply]
+    cases hf : findDev d s.devices with
+    | some l => by_cases ha : ans = .ok <;> simp [ha, map_fst_setDev, h]
+    | none =>
+      have hn := (findDev_eq_none d s.devices).mp hf
+      have : (s.devices.map Prod.fst ++ [d]).Nodup := by
+        rw [List.nodup_append]
+        refine ⟨h, by simp, ?_⟩
+        intro a ha b hb
+        simp only [List.mem_singleton] at hb
+        subst hb
+        intro hab; subst hab; exact hn ha
+      by_cases ha : ans = .ok <;> simpa [ha, map_fst_setDev] using this
+  | ddeath d id =>
+    simp only [apply]
+    split
+    · exact h
+    · simp [map_fst_setDev, h]
+  | ddata d id ans =>
+    simp only [apply]
+    split <;> exact h
+
+theorem apply_binv (s : St) (m : RMsg) (h : BInv s) : BInv (apply s m).1 := by
+  have hn := apply_nodup s m h.2.2
+  rw [apply_fst_eq]
+  exact ⟨h.1, h.2.1, hn⟩
+
+theorem drainBuf_spec (c : Cfg) (now : Nat) (s0 : St) (fuel : Nat) :
+    ∀ (released : Bool) (s : St) (acc : List Eff), BInv s → Rel s0 acc s →
+      BInv (drainBuf c now fuel released s acc).1 ∧
+      Rel s0 (drainBuf c now fuel released s acc).2.1 (drainBuf c now fuel released s acc).1 := by
+  induction fuel with
+  | zero => intro released s acc hb hr; exact ⟨hb, hr⟩
+  | succ fuel ih =>
+    intro released s acc hb hr
+    have hd := Reseq.drain_inv s.reseq hb.2.1
+    have hset : ∀ r', Reseq.Inv r' → BInv { s with reseq := r' } ∧ Rel s0 acc { s with reseq := r' } := by
+      intro r' hr'
+      refine ⟨⟨hb.1, hr', hb.2.2⟩, ?_⟩
+      have := hr.trans (Rel_timer s { s with reseq := r' } [] rfl rfl rfl (by simp))
+      simpa using this
+    have hcancel : ∀ s' : St, BInv s' → Rel s0 acc s' →
+        BInv (cancelTimer s').1 ∧ Rel s0 (acc ++ (cancelTimer s').2) (cancelTimer s').1 := by
+      intro s' hb' hr'
+      rw [cancelTimer_fst]
+      refine ⟨⟨hb'.1, hb'.2.1, hb'.2.2⟩, hr'.trans (Rel_timer _ _ _ rfl rfl rfl ?_)⟩
+      intro e he; exact Or.inr (cancelTimer_snd s' e he)
+    unfold drainBuf
+    split
+    · rename_i r' m heq
+      rw [heq] at hd
+      obtain ⟨hb1, hr1⟩ := hset r' hd
+      have hb2 := apply_binv _ m.2 hb1
+      have hr2 := hr1.trans (apply_rel _ m.2 hb1.1)
+      split
+      · rename_i s1 e1 happ
+        rw [happ] at hb2 hr2
+        exact ih true s1 (acc ++ e1) hb2 hr2
+      · rename_i s1 e1 r happ
+        rw [happ] at hb2 hr2
+        exact ⟨hb2, hr2⟩
+    · rename_i r' heq
+      rw [heq] at hd
+      obtain ⟨hb1, hr1⟩ := hset r' hd
+      exact hcancel _ hb1 hr1
+    · rename_i r' heq
+      rw [heq] at hd
+      obtain ⟨hb1, hr1⟩ := hset r' hd
+      split
+      · obtain ⟨hb2, hr2⟩ := hcancel _ hb1 hr1
+        obtain ⟨t, ht⟩ := startTimer_fst c (cancelTimer { s with reseq := r' }).1 now
+        simp only
+        rw [ht]
+        refine ⟨⟨hb2.1, hb2.2.1, hb2.2.2⟩, ?_⟩
+        rw [← ht]
+        refine hr2.trans (Rel_timer _ _ _ (by rw [ht]) (by rw [ht]) (by rw [ht]) ?_)
+        intro e he; exact Or.inl (startTimer_snd _ _ _ e he)
+      · exact ⟨hb1, hr1⟩
+    · rename_i r' heq
+      rw [heq] at hd
+      exact hset r' hd
+
+theorem handleRMsg_stale (c : Cfg) (s : St) (seq ts : Nat) (m : RMsg) (now : Nat)
+    (h : s.life = .stale) :
+    (handleRMsg c s seq ts m now).1 = s ∧ (handleRMsg c s seq ts m now).2.1 = [] := by
+  unfold handleRMsg
+  split
+  · exact ⟨rfl, rfl⟩
+  · simp [h]
+
+theorem handleRMsg_spec (c : Cfg) (s : St) (seq ts : Nat) (m : RMsg) (now : Nat)
+    (h : HostInv s) (hseq : seq < 256) :
+    HostInv (handleRMsg c s seq ts m now).1 ∧
+    Rel s (handleRMsg c s seq ts m now).2.1 (handleRMsg c s seq ts m now).1 := by
+  unfold handleRMsg
+  split
+  · exact ⟨h, Rel.refl s⟩
+  split
+  · exact ⟨h, Rel.refl s⟩
+  rename_i _ hlife
+  have hl : s.life = .birthed := by simpa using hlife
+  have hb := h.binv hl
+  split
+  · exact ⟨(apply_binv s m hb).hostInv, apply_rel s m hl⟩
+  have hp := Reseq.process_inv s.reseq seq m hb.2.1 hseq
+  have hset : ∀ r', Reseq.Inv r' → BInv { s with reseq := r' } ∧ Rel s [] { s with reseq := r' } :=
+    fun r' hr' => ⟨⟨hb.1, hr', hb.2.2⟩, Rel_timer s _ [] rfl rfl rfl (by simp)⟩
+  split
+  · rename_i r' heq
+    rw [heq] at hp
+    obtain ⟨hb1, hr1⟩ := hset r' hp
+    dsimp only
+    split
+    · obtain ⟨t, ht⟩ := startTimer_fst c { s with reseq := r' } now
+      simp only
+      constructor
+      · rw [ht]; exact BInv.hostInv ⟨hb1.1, hb1.2.1, hb1.2.2⟩
+      · have := hr1.trans (Rel_timer _ (startTimer c { s with reseq := r' } now).1
+            (startTimer c { s with reseq := r' } now).2
+            (by rw [ht]) (by rw [ht]) (by rw [ht])
+            (fun e he => Or.inl (startTimer_snd _ _ _ e he)))
+        simpa using this
+    · exact ⟨hb1.hostInv, hr1⟩
+  · rename_i r' heq
+    rw [heq] at hp
+    obtain ⟨hb1, hr1⟩ := hset r' hp
+    exact ⟨hb1.hostInv, hr1⟩
+  · rename_i r' m' heq
+    rw [heq] at hp
+    obtain ⟨hb1, hr1⟩ := hset r' hp
+    have hb2 := apply_binv _ m'.2 hb1
+    have hr2 := hr1.trans (apply_rel _ m'.2 hb1.1)
+    simp only [List.nil_append] at hr2
+    split
+    · rename_i s1 e1 r happ
+      rw [happ] at hb2 hr2
+      exact ⟨hb2.hostInv, hr2⟩
+    · rename_i s1 e1 happ
+      rw [happ] at hb2 hr2
+      obtain ⟨hb3, hr3⟩ := drainBuf_spec c now s (s1.reseq.buf.length + 1) false s1 e1 hb2 hr2
+      exact ⟨hb3.hostInv, hr3⟩
+
+theorem cancelTimer_inv (s : St) (h : HostInv s) : HostInv (cancelTimer s).1 := by
+  rw [cancelTimer_fst]
+  exact ⟨h.1, fun hs => ⟨(h.2.1 hs).1, rfl, (h.2.1 hs).2.2⟩, h.2.2⟩
+
+theorem cancelTimer_sim (s : St) : Sim s (cancelTimer s).2 (cancelTimer s).1 := by
+  apply Sim_inert
+  · rw [cancelTimer_fst]
+  · rw [cancelTimer_fst]
+  · intro e he; rw [cancelTimer_snd s e he]; rfl
+
+theorem cancelTimer_staleish (s : St) : ∀ e ∈ (cancelTimer s).2, e.staleish = true := by
+  intro e he; rw [cancelTimer_snd s e he]; rfl
+
+theorem setNext_init_inv : Reseq.Inv (Reseq.setNext (Reseq.init : Reseq.St (Nat × RMsg)) 1) := by
+  simp [Reseq.Inv, Reseq.setNext, Reseq.init]
+
+theorem handleBirth_cases (c : Cfg) (s : St) (ts bdseq id : Nat) (ans : Ans) (now wall : Nat) :
+    (ts ≤ s.birthTs ∧ handleBirth c s ts bdseq id ans now wall = (s, [])) ∨
+    (s.birthTs < ts ∧ ¬ (s.life = .birthed ∧ s.bdseq = bdseq) ∧ ans ≠ .ok ∧
+      handleBirth c s ts bdseq id ans now wall =
+        ((issueRebirth c s .invalidPayload now wall).1,
+          [.nodeBirth id false] ++ (issueRebirth c s .invalidPayload now wall).2)) ∨
+    (s.birthTs < ts ∧ ((s.life = .birthed ∧ s.bdseq = bdseq) ∨ ans = .ok) ∧
+      handleBirth c s ts bdseq id ans now wall =
+        ({ s with timer := .none, birthTs := ts, life := .birthed, bdseq := bdseq,
+                  reseq := Reseq.setNext Reseq.init 1 },
+         (if s.life = .birthed ∧ s.bdseq = bdseq then [] else [Eff.nodeBirth id true]) ++
+           (cancelTimer s).2)) := by
+  unfold handleBirth
+  by_cases h1 : ts ≤ s.birthTs
+  · exact Or.inl ⟨h1, by simp [h1]⟩
+  · right
+    simp only [h1, if_false]
+    by_cases h2 : ¬ (s.life = .birthed ∧ s.bdseq = bdseq) ∧ ans ≠ .ok
+    · left
+      refine ⟨by omega, h2.1, h2.2, ?_⟩
+      rw [if_pos h2]
+    · right
+      refine ⟨by omega, by grind, ?_⟩
+      rw [if_neg h2]
+      simp only [cancelTimer_fst]
+
+theorem handleBirth_spec (c : Cfg) (s : St) (ts bdseq id : Nat) (ans : Ans) (now wall : Nat)
+    (h : HostInv s) :
+    HostInv (handleBirth c s ts bdseq id ans now wall).1 ∧
+    Sim s (handleBirth c s ts bdseq id ans now wall).2 (handleBirth c s ts bdseq id ans now wall).1 := by
+  rcases handleBirth_cases c s ts bdseq id ans now wall with ⟨_, he⟩ | ⟨_, _, _, he⟩ | ⟨_, hok, he⟩
+  · rw [he]; exact ⟨h, Sim.refl s⟩
+  · rw [he]
+    refine ⟨issueRebirth_inv c s _ now wall h, ?_⟩
+    exact (Sim_inert s s [.nodeBirth id false] rfl rfl (by simp [Eff.inert])).trans
+      (issueRebirth_sim c s _ now wall)
+  · rw [he]
+    refine ⟨⟨setNext_init_inv, fun hs => by simp at hs, h.2.2⟩, ?_, ?_, ?_⟩
+    · rw [nodeLife_append, nodeLife_neutral _ _ (fun e he => by rw [cancelTimer_snd s e he]; rfl)]
+      split
+      · rename_i hs; exact hs.1
+      · rfl
+    · intro d
+      rw [devLife_neutral]
+      · rfl
+      · intro e he
+        rcases List.mem_append.mp he with he | he
+        · split at he
+          · simp at he
+          · simp only [List.mem_singleton] at he; subst he; rfl
+        · rw [cancelTimer_snd s e he]; rfl
+    · apply Guard_nodata
+      intro e he
+      rcases List.mem_append.mp he with he | he
+      · split at he
+        · simp at he
+        · simp only [List.mem_singleton] at he; subst he; rfl
+      · rw [cancelTimer_snd s e he]; rfl
+
+theorem Rel.sim {s s' : St} {es : List Eff} (h : Rel s es s') : Sim s es s' := h.2.2.2.2
+
+theorem step_spec (c : Cfg) (s : St) (i : In) (now wall : Nat) (h : HostInv s) (hwf : i.WF) :
+    HostInv (step c s i now wall).1 ∧ Sim s (step c s i now wall).2 (step c s i now wall).1 := by
+  cases i with
+  | nbirth ts bd id ans => exact handleBirth_spec c s ts bd id ans now wall h
+  | ndeath bd =>
+    simp only [step]
+    have h1 := cancelTimer_inv s h
+    have s1 := cancelTimer_sim s
+    have h2 := setStale_inv _ now h1
+    have s2 := s1.trans (setStale_sim (cancelTimer s).1 now)
+    split
+    · exact ⟨issueRebirth_inv c _ _ now wall h2, s2.trans (issueRebirth_sim c _ _ now wall)⟩
+    · exact ⟨h2, s2⟩
+  | rmsg seq ts m =>
+    simp only [step]
+    obtain ⟨h1, r1⟩ := handleRMsg_spec c s seq ts m now h hwf
+    split
+    · rename_i s1 e1 heq
+      rw [heq] at h1 r1
+      exact ⟨h1, r1.sim⟩
+    · rename_i s1 e1 r heq
+      rw [heq] at h1 r1
+      exact ⟨issueRebirth_inv c _ _ now wall h1, r1.sim.trans (issueRebirth_sim c _ _ now wall)⟩
+  | offline => exact ⟨setStale_inv s now h, setStale_sim s now⟩
+  | rebirthReq r => exact ⟨issueRebirth_inv c s r now wall h, issueRebirth_sim c s r now wall⟩
+  | timerFire =>
+    simp only [step]
+    split
+    · rename_i d ht
+      have hi : HostInv { s with timer := .fired } :=
+        ⟨h.1, fun hs => by have := (h.2.1 hs).2.1; simp [ht] at this, h.2.2⟩
+      have hs : Sim s [] { s with timer := .fired } := Sim_inert _ _ _ rfl rfl (by simp)
+      exact ⟨issueRebirth_inv c _ _ now wall hi, by simpa using hs.trans (issueRebirth_sim c _ _ now wall)⟩
+    · exact ⟨h, Sim.refl s⟩
+
+theorem run_cons (c : Cfg) (s : St) (e : Ev) (es : List Ev) :
+    run c s (e :: es) = ((run c (step c s e.inp e.now e.wall).1 es).1,
+      (step c s e.inp e.now e.wall).2 ++ (run c (step c s e.inp e.now e.wall).1 es).2) := rfl
+
+theorem run_spec (c : Cfg) (evs : List Ev) :
+    ∀ (s : St), HostInv s → (∀ e ∈ evs, e.inp.WF) →
+      HostInv (run c s evs).1 ∧ Sim s (run c s evs).2 (run c s evs).1 := by
+  induction evs with
+  | nil => intro s h _; exact ⟨h, Sim.refl s⟩
+  | cons e es ih =>
+    intro s h hwf
+    rw [run_cons]
+    obtain ⟨h1, s1⟩ := step_spec c s e.inp e.now e.wall h (hwf e (List.mem_cons_self ..))
+    obtain ⟨h2, s2⟩ := ih _ h1 (fun e' he' => hwf e' (List.mem_cons_of_mem _ he'))
+    exact ⟨h2, s1.trans s2⟩
+
+theorem init_inv : HostInv init := by
+  refine ⟨Reseq.init_inv, fun _ => ⟨rfl, rfl, by simp [init]⟩, by simp [init]⟩
+
+theorem devState_init : devState init = fun _ => Life.stale := rfl
+
+theorem Eff.staleish_not_data (e : Eff) (h : e.staleish = true) : e.isData = false := by
+  cases e <;> simp_all [Eff.staleish, Eff.isData]
+
+theorem Eff.not_data (e : Eff) (h : e.isData = false) :
+    (∀ id, e ≠ Eff.nodeData id) ∧ (∀ d id, e ≠ Eff.devData d id) := by
+  cases e <;> simp_all [Eff.isData]
+
+theorem setStale_no_ncmd (s : St) (t : Nat) : Eff.ncmd ∉ (setStale s t).2 := by
+  rcases setStale_cases s t with h | ⟨_, _, h⟩
+  · rw [h]; simp
+  · rw [h]
+    intro hm
+    simp only [List.mem_append, List.mem_map, List.mem_singleton] at hm
+    rcases hm with (hm | hm) | ⟨x, _, hx⟩
+    · have := cancelTimer_snd _ _ hm; simp at this
+    · simp at hm
+    · simp at hx
+
+theorem issueRebirth_stale (c : Cfg) (s : St) (r : Reason) (now wall : Nat) (h : s.life = .stale) :
+    (issueRebirth c s r now wall).1.life = .stale ∧
+    (issueRebirth c s r now wall).1.devices = s.devices := by
+  rcases issueRebirth_cases c s r now wall with h' | ⟨_, _, h'⟩
+  · rw [h']; exact ⟨h, rfl⟩
+  · rw [h', setStale_noop { s with lastRebirth := wall } now (Or.inl h)]; exact ⟨h, rfl⟩
+
+/-- NDEATH -/
+theorem ndeath_marks (c : Cfg) (s : St) (bd now wall : Nat) (hinv : HostInv s)
+    (hclock : s.birthTs ≤ now) :
+    (step c s (.ndeath bd) now wall).1.life = .stale ∧
+    (∀ d ∈ (step c s (.ndeath bd) now wall).1.devices, d.2 = .stale) ∧
+    (s.life = .birthed → Eff.nodeStale ∈ (step c s (.ndeath bd) now wall).2 ∧
+      ∀ d ∈ s.devices, Eff.devStale d.1 ∈ (step c s (.ndeath bd) now wall).2) := by
+  have hm := setStale_marks (cancelTimer s).1 now (by rw [cancelTimer_fst]; exact hclock)
+    (by rw [cancelTimer_fst]; exact fun hs => (hinv.2.1 hs).2.2)
+  simp only [cancelTimer_fst s] at hm
+  obtain ⟨m1, m2, m3⟩ := hm
+  simp only [step, cancelTimer_fst s]
+  split
+  · obtain ⟨i1, i2⟩ := issueRebirth_stale c _ .outOfSyncBdSeq now wall m1
+    refine ⟨i1, by rw [i2]; exact m2, fun hb => ?_⟩
+    obtain ⟨m4, m5⟩ := m3 hb
+    refine ⟨?_, fun d hd => ?_⟩
+    · exact List.mem_append_left _ (List.mem_append_right _ m4)
+    · exact List.mem_append_left _ (List.mem_append_right _ (m5 d hd))
+  · refine ⟨m1, m2, fun hb => ?_⟩
+    obtain ⟨m4, m5⟩ := m3 hb
+    exact ⟨List.mem_append_right _ m4, fun d hd => List.mem_append_right _ (m5 d hd)⟩
+
+theorem offline_marks (c : Cfg) (s : St) (now wall : Nat) (hinv : HostInv s)
+    (hclock : s.birthTs ≤ now) :
+    (step c s .offline now wall).1.life = .stale ∧
+    (∀ d ∈ (step c s .offline now wall).1.devices, d.2 = .stale) ∧
+    (s.life = .birthed → Eff.nodeStale ∈ (step c s .offline now wall).2 ∧
+      ∀ d ∈ s.devices, Eff.devStale d.1 ∈ (step c s .offline now wall).2) :=
+  setStale_marks s now hclock (fun hs => (hinv.2.1 hs).2.2)
+
+theorem rebirth_marks (c : Cfg) (s : St) (i : In) (now wall : Nat) (hinv : HostInv s)
+    (hwf : i.WF) (hclock : s.birthTs ≤ now) (h : Eff.ncmd ∈ (step c s i now wall).2) :
+    (step c s i now wall).1.life = .stale ∧
+    (∀ d ∈ (step c s i now wall).1.devices, d.2 = .stale) ∧
+    (s.life = .birthed → Eff.nodeStale ∈ (step c s i now wall).2 ∧
+      ∀ d ∈ s.devices, Eff.devStale d.1 ∈ (step c s i now wall).2) := by
+  have hst : s.life = .stale → ∀ d ∈ s.devices, d.2 = .stale := fun hs => (hinv.2.1 hs).2.2
+  cases i with
+  | nbirth ts bd id ans =>
+    simp only [step] at h ⊢
+    rcases handleBirth_cases c s ts bd id ans now wall with ⟨_, he⟩ | ⟨_, _, _, he⟩ | ⟨_, hok, he⟩
+    · rw [he] at h; simp at h
+    · rw [he] at h ⊢
+      simp only [List.mem_append, List.mem_singleton, reduceCtorEq, false_or] at h
+      obtain ⟨m1, m2, m3⟩ := issueRebirth_marks c s _ now wall hclock hst h
+      refine ⟨m1, m2, fun hb => ?_⟩
+      obtain ⟨m4, m5⟩ := m3 hb
+      exact ⟨List.mem_append_right _ m4, fun d hd => List.mem_append_right _ (m5 d hd)⟩
+    · rw [he] at h
+      exfalso
+      rcases List.mem_append.mp h with h | h
+      · split at h <;> simp at h
+      · have := cancelTimer_snd _ _ h; simp at this
+  | ndeath bd => exact ndeath_marks c s bd now wall hinv hclock
+  | offline => exact offline_marks c s now wall hinv hclock
+  | rebirthReq r => exact issueRebirth_marks c s r now wall hclock hst h
+  | timerFire =>
+    simp only [step] at h ⊢
+    split at h
+    · rename_i d ht
+      exact issueRebirth_marks c { s with timer := .fired } _ now wall hclock hst h
+    · simp at h
+  | rmsg seq ts m =>
+    simp only [step] at h ⊢
+    obtain ⟨h1, r1⟩ := handleRMsg_spec c s seq ts m now hinv hwf
+    split at h
+    · rename_i s1 e1 heq
+      rw [heq] at r1
+      have := r1.2.2.2.1 _ h
+      simp [Eff.plain] at this
+    · rename_i s1 e1 r heq
+      rw [heq] at h1 r1
+      obtain ⟨rl, rb, rn, rp, _⟩ := r1
+      simp only at rl rb rn rp h1
+      have h2 : Eff.ncmd ∈ (issueRebirth c s1 r now wall).2 := by
+        rcases List.mem_append.mp h with h | h
+        · have := rp _ h; simp [Eff.plain] at this
+        · exact h
+      obtain ⟨m1, m2, m3⟩ := issueRebirth_marks c s1 r now wall (by omega)
+        (fun hs => (h1.2.1 hs).2.2) h2
+      refine ⟨m1, m2, fun hb => ?_⟩
+      obtain ⟨m4, m5⟩ := m3 (by rw [rl]; exact hb)
+      refine ⟨List.mem_append_right _ m4, fun d hd => ?_⟩
+      have := rn d.1 (List.mem_map.mpr ⟨d, hd, rfl⟩)
+      obtain ⟨d', hd', hdd⟩ := List.mem_map.mp this
+      rw [← hdd]
+      exact List.mem_append_right _ (m5 d' hd')
+
+theorem stale_no_data (c : Cfg) (s : St) (i : In) (now wall : Nat) (hst : s.life = .stale) :
+    ∀ e ∈ (step c s i now wall).2, e.isData = false := by
+  cases i with
+  | nbirth ts bd id ans =>
+    simp only [step]
+    rcases handleBirth_cases c s ts bd id ans now wall with ⟨_, he⟩ | ⟨_, _, _, he⟩ | ⟨_, hok, he⟩
+    · rw [he]; simp
+    · rw [he]
+      intro e hm
+      rcases List.mem_append.mp hm with hm | hm
+      · simp only [List.mem_singleton] at hm; subst hm; rfl
+      · exact Eff.staleish_not_data e (issueRebirth_staleish _ _ _ _ _ e hm)
+    · rw [he]
+      intro e hm
+      rcases List.mem_append.mp hm with hm | hm
+      · split at hm
+        · simp at hm
+        · simp only [List.mem_singleton] at hm; subst hm; rfl
+      · exact Eff.staleish_not_data e (cancelTimer_staleish _ e hm)
+  | ndeath bd =>
+    simp only [step]
+    intro e hm
+    apply Eff.staleish_not_data
+    split at hm
+    · rcases List.mem_append.mp hm with hm | hm
+      · rcases List.mem_append.mp hm with hm | hm
+        · exact cancelTimer_staleish _ e hm
+        · exact setStale_staleish _ _ e hm
+      · exact issueRebirth_staleish _ _ _ _ _ e hm
+    · rcases List.mem_append.mp hm with hm | hm
+      · exact cancelTimer_staleish _ e hm
+      · exact setStale_staleish _ _ e hm
+  | offline => exact fun e hm => Eff.staleish_not_data e (setStale_staleish _ _ e hm)
+  | rebirthReq r => exact fun e hm => Eff.staleish_not_data e (issueRebirth_staleish _ _ _ _ _ e hm)
+  | timerFire =>
+    simp only [step]
+    split
+    · exact fun e hm => Eff.staleish_not_data e (issueRebirth_staleish _ _ _ _ _ e hm)
+    · simp
+  | rmsg seq ts m =>
+    simp only [step]
+    obtain ⟨_, h2⟩ := handleRMsg_stale c s seq ts m now hst
+    split
+    · rename_i s1 e1 heq
+      rw [heq] at h2; simp only at h2; subst h2; simp
+    · rename_i s1 e1 r heq
+      rw [heq] at h2; simp only at h2; subst h2
+      intro e hm
+      simp only [List.nil_append] at hm
+      exact Eff.staleish_not_data e (issueRebirth_staleish _ _ _ _ _ e hm)
+
+/-! ### the dispatcher -/
+
+theorem findNode_setNode_ne (n m : Nat) (s : St) (L : Nodes) (h : m ≠ n) :
+    findNode m (setNode n s L) = findNode m L := by
+  induction L with
+  | nil =>
+    have : ¬ n = m := fun h' => h h'.symm
+    simp [setNode, findNode, this]
+  | cons a t ih =>
+    obtain ⟨n', s'⟩ := a
+    simp only [setNode]
+    split
+    · rename_i h2; subst h2
+      have : ¬ n' = m := fun h' => h h'.symm
+      simp [findNode, this]
+    · simp only [findNode, ih]
+
+theorem map_fst_setNode (n : Nat) (s : St) (L : Nodes) :
+    (setNode n s L).map Prod.fst =
+      if (findNode n L).isSome then L.map Prod.fst else L.map Prod.fst ++ [n] := by
+  induction L with
+  | nil => simp [setNode, findNode]
+  | cons a t ih =>
+    obtain ⟨n', s'⟩ := a
+    simp only [setNode, findNode]
+    split
+    · simp
+    · simp only [List.map_cons, ih]
+      split <;> simp
+
+theorem stepNode_nodes (c : Cfg) (a : App) (n : Nat) (s : St) (i : In) (now wall : Nat)
+    (pre : List AppEff) :
+    (stepNode c a n s i now wall pre).1.nodes = setNode n (step c s i now wall).1 a.nodes := rfl
+
+theorem stepNode_effs (c : Cfg) (a : App) (n : Nat) (s : St) (i : In) (now wall : Nat)
+    (pre : List AppEff) :
+    (stepNode c a n s i now wall pre).2 = pre ++ (step c s i now wall).2.map (AppEff.node n) := rfl
+
+theorem stepNode_find_ne (c : Cfg) (a : App) (n m : Nat) (s : St) (i : In) (now wall : Nat)
+    (pre : List AppEff) (h : m ≠ n) :
+    findNode m (stepNode c a n s i now wall pre).1.nodes = findNode m a.nodes := by
+  rw [stepNode_nodes, findNode_setNode_ne _ _ _ _ h]
+
+theorem appStep_node_find_ne (c : Cfg) (a : App) (n m : Nat) (i : In) (now wall : Nat)
+    (h : m ≠ n) :
+    findNode m (appStep c a (.node n i) now wall).1.nodes = findNode m a.nodes := by
+  cases i <;> simp only [appStep] <;> split <;>
+    first | rfl | exact stepNode_find_ne _ _ _ _ _ _ _ _ _ h
+
+theorem appStep_invalid_off (c : Cfg) (a : App) (n now wall : Nat)
+    (h : c.invalidPayload = false) :
+    appStep c a (.invalidPayload n) now wall = (a, []) := by
+  simp [appStep, h]
+
+theorem appStep_invalid_on (c : Cfg) (a : App) (n now wall : Nat)
+    (h : c.invalidPayload = true) :
+    (∀ m, m ≠ n → findNode m (appStep c a (.invalidPayload n) now wall).1.nodes = findNode m a.nodes) ∧
+    (∀ e ∈ (appStep c a (.invalidPayload n) now wall).2,
+        e = AppEff.nodeCreated n ∨ e = AppEff.node n Eff.ncmd ∨ e = AppEff.node n Eff.nodeStale ∨
+        e = AppEff.node n Eff.timerCancel ∨ ∃ d, e = AppEff.node n (Eff.devStale d)) ∧
+    (appStep c a (.invalidPayload n) now wall).1.nodes.map Prod.fst
+        = (if (findNode n a.nodes).isSome then a.nodes.map Prod.fst else a.nodes.map Prod.fst ++ [n]) := by
+  have heff : ∀ (s : St) (e : AppEff),
+      e ∈ (step c s (.rebirthReq .invalidPayload) now wall).2.map (AppEff.node n) →
+        e = AppEff.node n Eff.ncmd ∨ e = AppEff.node n Eff.nodeStale ∨
+        e = AppEff.node n Eff.timerCancel ∨ ∃ d, e = AppEff.node n (Eff.devStale d) := by
+    intro s e he
+    obtain ⟨x, hx, rfl⟩ := List.mem_map.mp he
+    have := issueRebirth_staleish c s .invalidPayload now wall x hx
+    cases x <;> simp_all [Eff.staleish]
+  simp only [appStep, h, if_true]
+  cases hf : findNode n a.nodes with
+  | some s =>
+    refine ⟨fun m hm => stepNode_find_ne _ _ _ _ _ _ _ _ _ hm, ?_, ?_⟩
+    · intro e he
+      rw [stepNode_effs, List.nil_append] at he
+      exact Or.inr (heff s e he)
+    · rw [stepNode_nodes, map_fst_setNode, hf]
+  | none =>
+    refine ⟨fun m hm => stepNode_find_ne _ _ _ _ _ _ _ _ _ hm, ?_, ?_⟩
+    · intro e he
+      rw [stepNode_effs] at he
+      rcases List.mem_append.mp he with he | he
+      · simp only [List.mem_singleton] at he; exact Or.inl he
+      · exact Or.inr (heff init e he)
+    · rw [stepNode_nodes, map_fst_setNode, hf]
 
 end Srad.Host
